@@ -1363,10 +1363,600 @@ Theorem model_histories_accepted i0 n slack acts s :
   run (init_state i0 n) acts = Some s ->
   check_C30 i0 slack (history s) = true.
 Proof.
-  intros H. unfold check_C30, check_C30_code.
+  intros H. unfold check_C30.
   destruct (sim_run (mkCfg i0 (count_notifying (history s)) slack) acts (init_state i0 n) m0 s)
     as (m' & Hm & _); auto.
   - apply inv_init.
   - apply sim_init.
   - rewrite Hm. reflexivity.
 Qed.
+
+(* ------------------------------------------------------------------ *)
+(* soundness of the monitor: what an accepted history satisfies        *)
+(* ------------------------------------------------------------------ *)
+Section Sound.
+Variable c : mcfg.
+Let i0 := c_init c.
+
+Definition ev_thread (e : event) : option nat :=
+  match e with ECall t _ _ | ERet t _ _ => Some t | _ => None end.
+Definition is_term_call (e : event) : bool :=
+  match e with ECall _ OTerminate _ => true | _ => false end.
+Definition is_cancel_of (t : nat) (e : event) : bool :=
+  match e with ECancel t' _ => Nat.eqb t' t | _ => false end.
+
+(* what stays fixed in the monitor's record of an outstanding call *)
+Definition okey (o : option oop) : option (N * nat + nat) :=
+  match o with
+  | Some (OpWait w) => Some (inl (w_prev w, w_floor w))
+  | Some (OpNotify nf) => Some (inr nf)
+  | _ => None
+  end.
+Definition ocanc (o : option oop) : bool :=
+  match o with Some (OpWait w) => w_canc w | _ => false end.
+
+Lemma okey_refresh m tm o : okey (option_map (refresh_one c m tm) o) = okey o.
+Proof.
+  destruct o as [[nf| | |w]|]; simpl; auto.
+  destruct (w_due w); auto. destruct (urgent c m w); auto.
+Qed.
+Lemma ocanc_refresh m tm o : ocanc (option_map (refresh_one c m tm) o) = ocanc o.
+Proof.
+  destruct o as [[nf| | |w]|]; simpl; auto.
+  destruct (w_due w); auto. destruct (urgent c m w); auto.
+Qed.
+
+Lemma mon_event_facts m e m' :
+  mon_event c m e = MOk m' ->
+  m_hi m' = m_hi m + b2n (is_notifying e) /\
+  m_lo m <= m_lo m' /\ m_maxk m <= m_maxk m' /\
+  (is_term_call e = false -> m_tcall m' = m_tcall m) /\
+  (forall t, ev_thread e <> Some t ->
+     okey (aget (m_open m') t) = okey (aget (m_open m) t) /\
+     (ocanc (aget (m_open m) t) = true -> ocanc (aget (m_open m') t) = true) /\
+     (is_cancel_of t e = true -> ocanc (aget (m_open m') t) = true)).
+Proof.
+  intros H. destruct e as [t o tm|t r tm|t tm|tm]; simpl in H.
+  - destruct (aget (m_open m) t) eqn:Eo; [discriminate|].
+    destruct o; inversion H; subst m'; clear H;
+      (split; [simpl; lia|]); (split; [simpl; lia|]); (split; [simpl; lia|]); (split; [simpl; auto; try discriminate|]);
+      intros t' Hne; simpl in Hne; rewrite (refresh_open c); rewrite okey_refresh, ocanc_refresh;
+      cbn [m_open set_open]; rewrite aget_cons_other by congruence; (split; [auto|]);
+      (split; [auto|discriminate]).
+  - destruct (aget (m_open m) t) as [[nf| | |w]|] eqn:Eo; try discriminate; destruct r; try discriminate.
+    + inversion H; subst m'; clear H.
+      split; [simpl; lia|]. split; [simpl; destruct (m_tcall m); lia|]. split; [simpl; destruct (m_tcall m); lia|].
+      split; [simpl; auto|]. intros t' Hne. simpl in Hne. rewrite (refresh_open c), okey_refresh, ocanc_refresh.
+      cbn [m_open]. rewrite aget_adel_other by congruence. split; [auto|]. split; [auto|discriminate].
+    + inversion H; subst m'; clear H.
+      split; [simpl; lia|]. split; [simpl; lia|]. split; [simpl; lia|]. split; [simpl; auto|].
+      intros t' Hne. simpl in Hne. rewrite (refresh_open c), okey_refresh, ocanc_refresh.
+      cbn [m_open set_open]. rewrite aget_adel_other by congruence. split; [auto|]. split; [auto|discriminate].
+    + inversion H; subst m'; clear H.
+      split; [simpl; lia|]. split; [simpl; lia|]. split; [simpl; lia|]. split; [simpl; auto|].
+      intros t' Hne. simpl in Hne. rewrite (refresh_open c), okey_refresh, ocanc_refresh.
+      cbn [m_open]. rewrite aget_adel_other by congruence. split; [auto|]. split; [auto|discriminate].
+    + destruct (check_wait_ret c m w idx e tm) eqn:Ec; [discriminate|].
+      inversion H; subst m'; clear H.
+      split; [simpl; lia|]. split; [simpl; lia|]. split; [simpl; lia|]. split; [simpl; auto|].
+      intros t' Hne. simpl in Hne. rewrite (refresh_open c), okey_refresh, ocanc_refresh.
+      cbn [m_open]. rewrite aget_adel_other by congruence. split; [auto|]. split; [auto|discriminate].
+  - destruct (aget (m_open m) t) as [[nf| | |w]|] eqn:Eo; try discriminate.
+    inversion H; subst m'; clear H.
+    split; [simpl; lia|]. split; [simpl; lia|]. split; [simpl; lia|]. split; [simpl; auto|].
+    intros t' _. rewrite (refresh_open c), okey_refresh, ocanc_refresh. cbn [m_open set_open].
+    destruct (Nat.eqb_spec t t') as [->|Hne].
+    + rewrite aget_cons_same, Eo. simpl. split; [auto|]. split; auto.
+    + rewrite aget_cons_other by congruence. rewrite aget_adel_other by congruence.
+      split; [auto|]. split; [auto|]. intros Hx. apply Nat.eqb_eq in Hx. congruence.
+  - match type of H with context [first_nonzero ?l] => destruct (first_nonzero l) eqn:Eq end; [|discriminate].
+    inversion H; subst m'; clear H.
+    split; [simpl; lia|]. split; [simpl; lia|]. split; [simpl; lia|]. split; [simpl; auto|].
+    intros t' _. rewrite (refresh_open c), okey_refresh, ocanc_refresh.
+    split; [auto|]. split; [auto|discriminate].
+Qed.
+
+Definition mon_from (m : mstate) (evs : list event) : mres := fold_left (mon_step c) evs (MOk m).
+
+Lemma fold_err l k : fold_left (mon_step c) l (MErr k) = MErr k.
+Proof. induction l; simpl; auto. Qed.
+
+Lemma mon_from_app m A B m' :
+  mon_from m (A ++ B) = MOk m' -> exists m1, mon_from m A = MOk m1 /\ mon_from m1 B = MOk m'.
+Proof.
+  unfold mon_from. rewrite fold_left_app. intros H.
+  destruct (fold_left (mon_step c) A (MOk m)) as [m1|k] eqn:E.
+  - exists m1. auto.
+  - rewrite fold_err in H. discriminate.
+Qed.
+
+Lemma mon_from_cons m e B m' :
+  mon_from m (e :: B) = MOk m' -> exists m1, mon_event c m e = MOk m1 /\ mon_from m1 B = MOk m'.
+Proof.
+  unfold mon_from. simpl. intros H. destruct (mon_event c m e) as [m1|k] eqn:E.
+  - exists m1. auto.
+  - rewrite fold_err in H. discriminate.
+Qed.
+
+Lemma mon_from_facts B : forall m m',
+  mon_from m B = MOk m' ->
+  m_hi m' = m_hi m + count_notifying B /\
+  m_lo m <= m_lo m' /\ m_maxk m <= m_maxk m' /\
+  (forallb (fun e => negb (is_term_call e)) B = true -> m_tcall m' = m_tcall m) /\
+  (forall t, (forall e, In e B -> ev_thread e <> Some t) ->
+     okey (aget (m_open m') t) = okey (aget (m_open m) t) /\
+     (ocanc (aget (m_open m) t) = true -> ocanc (aget (m_open m') t) = true) /\
+     (existsb (is_cancel_of t) B = true -> ocanc (aget (m_open m') t) = true)).
+Proof.
+  induction B as [|e B IH]; intros m m' H.
+  - unfold mon_from in H. simpl in H. inversion H; subst. unfold count_notifying. simpl.
+    repeat split; auto; try lia; discriminate.
+  - apply mon_from_cons in H. destruct H as (m1 & He & H).
+    destruct (mon_event_facts _ _ _ He) as (F1 & F2 & F3 & F4 & F5).
+    destruct (IH _ _ H) as (G1 & G2 & G3 & G4 & G5).
+    split. { rewrite G1, F1. unfold count_notifying. simpl. destruct (is_notifying e); simpl; lia. }
+    split; [lia|]. split; [lia|]. split.
+    { simpl. intros Hx. apply andb_true_iff in Hx. destruct Hx as [Hx1 Hx2].
+      rewrite G4 by auto. apply F4. destruct (is_term_call e); auto. }
+    intros t Ht. destruct (F5 t) as (A1 & A2 & A3); [apply Ht; left; auto|].
+    destruct (G5 t) as (B1 & B2 & B3); [intros e' He'; apply Ht; right; auto|].
+    split; [congruence|]. split; [auto|]. simpl. intros Hx. apply orb_true_iff in Hx.
+    destruct Hx as [Hx|Hx]; auto.
+Qed.
+
+Lemma call_wait_facts m t p tm m1 :
+  mon_event c m (ECall t (OWait p) tm) = MOk m1 ->
+  okey (aget (m_open m1) t) = Some (inl (p, m_floor m)) /\ m_tcall m1 = m_tcall m.
+Proof.
+  simpl. destruct (aget (m_open m) t); [discriminate|]. intros H. inversion H; subst m1; clear H.
+  rewrite (refresh_open c), okey_refresh. cbn [m_open set_open]. rewrite aget_cons_same. auto.
+Qed.
+
+Lemma call_notify_facts m t o tm m1 :
+  mon_event c m (ECall t o tm) = MOk m1 -> is_notifying (ECall t o tm) = true ->
+  okey (aget (m_open m1) t) = Some (inr (m_floor m)) /\ m_tcall m1 = m_tcall m.
+Proof.
+  simpl. destruct (aget (m_open m) t); [discriminate|]. intros H Hn.
+  destruct o; try discriminate; inversion H; subst m1; clear H;
+    rewrite (refresh_open c), okey_refresh; cbn [m_open]; rewrite aget_cons_same; auto.
+Qed.
+
+Lemma ret_wait_facts m t i e tm m' p fl :
+  mon_event c m (ERet t (RWait i e) tm) = MOk m' ->
+  okey (aget (m_open m) t) = Some (inl (p, fl)) ->
+  exists k, fl <= k <= m_hi m /\ idx_at i0 k = i /\ k <= m_maxk m' /\
+            (e = WOk -> p <> 0%N -> i <> p) /\
+            (e = WCancelled -> ocanc (aget (m_open m) t) = true) /\
+            (e = WTerminated -> m_tcall m = true).
+Proof.
+  simpl. intros H Hk. destruct (aget (m_open m) t) as [[nf| | |w]|] eqn:Eo; try discriminate.
+  simpl in Hk. inversion Hk; subst p fl; clear Hk.
+  destruct (check_wait_ret c m w i e tm) as [code|k] eqn:Ec; [discriminate|].
+  inversion H; subst m'; clear H. unfold check_wait_ret in Ec.
+  destruct ((werr_eqb e WTerminated && negb (m_tcall m)) || (werr_eqb e WCancelled && negb (w_canc w))) eqn:E1;
+    [discriminate|].
+  destruct (werr_eqb e WOk && negb (N.eqb (w_prev w) 0) && N.eqb i (w_prev w)) eqn:E2; [discriminate|].
+  destruct (find_k (c_init c) i (w_floor w) (S (m_hi m) - w_floor w)) as [k'|] eqn:Ef.
+  2:{ destruct (find_k (c_init c) i 0 (w_floor w)); discriminate. }
+  destruct (werr_eqb e WOk && w_aft w); [discriminate|]. destruct (late c (w_due w) tm); [discriminate|].
+  inversion Ec; subst k'. apply find_k_some in Ef. destruct Ef as (Hr & Hi & _).
+  exists k. split; [lia|]. split; [exact Hi|]. split; [simpl; lia|].
+  apply orb_false_iff in E1. destruct E1 as [E1a E1b].
+  split; [|split].
+  - intros -> Hp Heq. simpl in E2. destruct (N.eqb_spec (w_prev w) 0); [contradiction|].
+    simpl in E2. apply N.eqb_neq in E2. auto.
+  - intros ->. simpl in E1b. simpl. destruct (w_canc w); auto.
+  - intros ->. simpl in E1a. destruct (m_tcall m); auto.
+Qed.
+
+Lemma ret_notify_facts m t tm m' nf :
+  mon_event c m (ERet t RUnit tm) = MOk m' ->
+  okey (aget (m_open m) t) = Some (inr nf) -> m_tcall m = false ->
+  S nf <= m_maxk m' /\ m_lo m' = S (m_lo m).
+Proof.
+  simpl. intros H Hk Htc. destruct (aget (m_open m) t) as [[nf'| | |w]|] eqn:Eo; try discriminate.
+  simpl in Hk. inversion Hk; subst nf'; clear Hk. inversion H; subst m'; clear H. rewrite Htc. simpl.
+  split; lia.
+Qed.
+
+
+Definition untouched (t : nat) (B : list event) : Prop :=
+  forall e, In e B -> ev_thread e <> Some t.
+Definition no_term_call (B : list event) : bool := forallb (fun e => negb (is_term_call e)) B.
+
+Lemma count_notifying_app A B : count_notifying (A ++ B) = count_notifying A + count_notifying B.
+Proof. unfold count_notifying. rewrite filter_app, app_length. reflexivity. Qed.
+
+Lemma count_notifying_cons e l :
+  count_notifying (e :: l) = b2n (is_notifying e) + count_notifying l.
+Proof. unfold count_notifying. simpl. destruct (is_notifying e); reflexivity. Qed.
+
+Lemma ret_wait_key m t i e tm m' :
+  mon_event c m (ERet t (RWait i e) tm) = MOk m' ->
+  exists p fl, okey (aget (m_open m) t) = Some (inl (p, fl)).
+Proof.
+  simpl. destruct (aget (m_open m) t) as [[nf| | |w]|]; try discriminate. intros _. simpl. eauto.
+Qed.
+
+(* a WaitForChange(prev <> 0) that returns without error returns an index <> prev *)
+Theorem sound_no_stale A t p tm B i tm' D mf :
+  mon_from m0 (A ++ ECall t (OWait p) tm :: B ++ ERet t (RWait i WOk) tm' :: D) = MOk mf ->
+  untouched t B -> p <> 0%N -> i <> p.
+Proof.
+  intros H HB Hp.
+  apply mon_from_app in H. destruct H as (mA & _ & H).
+  apply mon_from_cons in H. destruct H as (m1 & Hc & H).
+  apply mon_from_app in H. destruct H as (m2 & HB' & H).
+  apply mon_from_cons in H. destruct H as (m3 & Hr & _).
+  destruct (call_wait_facts _ _ _ _ _ Hc) as [Hk _].
+  destruct (mon_from_facts _ _ _ HB') as (_ & _ & _ & _ & G5).
+  destruct (G5 t HB) as (Hk2 & _). rewrite Hk in Hk2.
+  destruct (ret_wait_facts _ _ _ _ _ _ _ _ Hr Hk2) as (k & _ & _ & _ & Hne & _). auto.
+Qed.
+
+(* indices returned to successive calls never move backwards (absent wrap) *)
+Theorem sound_monotone A t1 i1 e1 tm1 B t2 p2 tm2 C i2 e2 tm3 D mf :
+  let evs := A ++ ERet t1 (RWait i1 e1) tm1 :: B ++ ECall t2 (OWait p2) tm2 :: C
+               ++ ERet t2 (RWait i2 e2) tm3 :: D in
+  mon_from m0 evs = MOk mf ->
+  untouched t2 C ->
+  (i0 + N.of_nat (count_notifying evs) <= max_u64)%N ->
+  (i1 <= i2)%N.
+Proof.
+  intros evs H HC Hw. unfold evs in H.
+  apply mon_from_app in H. destruct H as (mA & HA & H).
+  apply mon_from_cons in H. destruct H as (m1 & Hr1 & H).
+  apply mon_from_app in H. destruct H as (m2 & HB & H).
+  apply mon_from_cons in H. destruct H as (m3 & Hc2 & H).
+  apply mon_from_app in H. destruct H as (m4 & HC' & H).
+  apply mon_from_cons in H. destruct H as (m5 & Hr2 & HD).
+  destruct (ret_wait_key _ _ _ _ _ _ Hr1) as (p1 & fl1 & Hk1).
+  destruct (ret_wait_facts _ _ _ _ _ _ _ _ Hr1 Hk1) as (k1 & Hk1r & Hi1 & Hm1 & _).
+  destruct (mon_from_facts _ _ _ HA) as (HhA & _).
+  destruct (mon_from_facts _ _ _ HB) as (HhB & _ & HmB & _).
+  destruct (mon_event_facts _ _ _ Hr1) as (Hh1 & _).
+  destruct (mon_event_facts _ _ _ Hc2) as (Hh3 & _).
+  destruct (call_wait_facts _ _ _ _ _ Hc2) as [Hk _].
+  destruct (mon_from_facts _ _ _ HC') as (HhC & _ & _ & _ & G5).
+  destruct (G5 t2 HC) as (Hk2 & _). rewrite Hk in Hk2.
+  destruct (ret_wait_facts _ _ _ _ _ _ _ _ Hr2 Hk2) as (k2 & Hk2r & Hi2 & _).
+  assert (Hfl : k1 <= k2). { unfold m_floor in Hk2r. lia. }
+  assert (Htot : k2 <= count_notifying evs).
+  { unfold evs. repeat (rewrite count_notifying_app || rewrite count_notifying_cons).
+    simpl is_notifying in *. simpl b2n in *. assert (m_hi m0 = 0) by reflexivity. lia. }
+  rewrite <- Hi1, <- Hi2. unfold i0. rewrite !idx_at_nowrap by (fold i0; lia). lia.
+Qed.
+
+(* every state change made through a notifying call (NotifyOfChange, or
+   TrackingLock.Unlock) advances the index: a wait that starts after the call
+   returned sees a strictly larger index than a wait that had returned before
+   the call started (no Terminate called meanwhile, absent wrap) *)
+Theorem sound_unlock_advances A ta ia ea tm1 B1 tu o tm2 B2 tm3 B3 tb pb tm4 B4 ib eb tm5 D mf :
+  let pre := A ++ ERet ta (RWait ia ea) tm1 :: B1 ++ ECall tu o tm2 :: B2 in
+  let evs := pre ++ ERet tu RUnit tm3 :: B3 ++ ECall tb (OWait pb) tm4 :: B4
+                 ++ ERet tb (RWait ib eb) tm5 :: D in
+  mon_from m0 evs = MOk mf ->
+  is_notifying (ECall tu o tm2) = true ->
+  untouched tu B2 -> untouched tb B4 ->
+  no_term_call pre = true ->
+  (i0 + N.of_nat (count_notifying evs) <= max_u64)%N ->
+  (ia < ib)%N.
+Proof.
+  intros pre evs H Hn HB2 HB4 Hnt Hw. unfold evs in H.
+  apply mon_from_app in H. destruct H as (mP & HP & H).
+  apply mon_from_cons in H. destruct H as (m5 & Hru & H).
+  apply mon_from_app in H. destruct H as (m6 & HB3 & H).
+  apply mon_from_cons in H. destruct H as (m7 & Hcb & H).
+  apply mon_from_app in H. destruct H as (m8 & HB4' & H).
+  apply mon_from_cons in H. destruct H as (m9 & Hrb & HD).
+  (* no Terminate was called before the notifying call returned *)
+  destruct (mon_from_facts _ _ _ HP) as (HhP & _ & _ & HtP & _).
+  assert (Htc : m_tcall mP = false) by (rewrite HtP; auto).
+  (* split the prefix *)
+  unfold pre in HP.
+  apply mon_from_app in HP. destruct HP as (mA & HA & HP).
+  apply mon_from_cons in HP. destruct HP as (m1 & Hra & HP).
+  apply mon_from_app in HP. destruct HP as (m2 & HB1 & HP).
+  apply mon_from_cons in HP. destruct HP as (m3 & Hcu & HB2').
+  destruct (ret_wait_key _ _ _ _ _ _ Hra) as (p1 & fl1 & Hk1).
+  destruct (ret_wait_facts _ _ _ _ _ _ _ _ Hra Hk1) as (ka & Hkar & Hia & Hma & _).
+  destruct (mon_from_facts _ _ _ HB1) as (_ & _ & HmB1 & _).
+  destruct (call_notify_facts _ _ _ _ _ Hcu Hn) as [Hku _].
+  destruct (mon_from_facts _ _ _ HB2') as (_ & _ & _ & _ & G5u).
+  destruct (G5u tu HB2) as (Hku2 & _). rewrite Hku in Hku2.
+  destruct (ret_notify_facts _ _ _ _ _ Hru Hku2 Htc) as [Hmu _].
+  destruct (mon_from_facts _ _ _ HB3) as (_ & _ & HmB3 & _).
+  destruct (call_wait_facts _ _ _ _ _ Hcb) as [Hkb _].
+  destruct (mon_from_facts _ _ _ HB4') as (HhB4 & _ & _ & _ & G5b).
+  destruct (G5b tb HB4) as (Hkb2 & _). rewrite Hkb in Hkb2.
+  destruct (ret_wait_facts _ _ _ _ _ _ _ _ Hrb Hkb2) as (kb & Hkbr & Hib & _).
+  assert (Hlt : ka < kb). { unfold m_floor in *. lia. }
+  assert (Htot : kb <= count_notifying evs).
+  { destruct (mon_event_facts _ _ _ Hru) as (E1 & _).
+    destruct (mon_from_facts _ _ _ HB3) as (E2 & _).
+    destruct (mon_event_facts _ _ _ Hcb) as (E3 & _).
+    unfold evs. repeat (rewrite count_notifying_app || rewrite count_notifying_cons).
+    fold pre. simpl is_notifying in *. simpl b2n in *. assert (m_hi m0 = 0) by reflexivity. lia. }
+  rewrite <- Hia, <- Hib. unfold i0. rewrite !idx_at_nowrap by (fold i0; lia). lia.
+Qed.
+
+Lemma aget_some_in {A} (l : list (nat * A)) t v : aget l t = Some v -> In (t, v) l.
+Proof.
+  induction l as [|[k w] l IH]; simpl; [discriminate|].
+  destruct (Nat.eqb_spec k t); intros H; [inversion H; subst; auto|auto].
+Qed.
+
+Lemma first_nonzero_all l : first_nonzero l = 0 -> forall x, In x l -> x = 0.
+Proof.
+  induction l as [|y l IH]; simpl; intros H x Hx; [contradiction|].
+  destruct y; [|discriminate]. destruct Hx as [Hx|Hx]; auto.
+Qed.
+
+(* a wait that is still blocked when nothing can move any more was not
+   cancelled, no Terminate has returned, and its previous index is an index
+   the tracker can still have: no update was missed *)
+Theorem sound_quiesce A t p tm B tq D mf :
+  mon_from m0 (A ++ ECall t (OWait p) tm :: B ++ EQuiesce tq :: D) = MOk mf ->
+  untouched t B ->
+  p <> 0%N /\ existsb (is_cancel_of t) B = false /\
+  exists k, k <= c_total c /\ idx_at i0 k = p.
+Proof.
+  intros H HB.
+  apply mon_from_app in H. destruct H as (mA & _ & H).
+  apply mon_from_cons in H. destruct H as (m1 & Hc & H).
+  apply mon_from_app in H. destruct H as (m2 & HB' & H).
+  apply mon_from_cons in H. destruct H as (m3 & Hq & _).
+  destruct (call_wait_facts _ _ _ _ _ Hc) as [Hk _].
+  destruct (mon_from_facts _ _ _ HB') as (_ & _ & _ & _ & G5).
+  destruct (G5 t HB) as (Hk2 & _ & Hcanc). rewrite Hk in Hk2.
+  simpl in Hq.
+  match type of Hq with context [first_nonzero ?l] => destruct (first_nonzero l) eqn:Ef end;
+    [|discriminate].
+  destruct (aget (m_open m2) t) as [[nf| | |w]|] eqn:Eo; try discriminate. simpl in Hk2.
+  inversion Hk2; clear Hk2.
+  assert (Hin : In (quiesce_code (t, refresh_one c m2 tq (OpWait w)))
+                   (map quiesce_code (m_open (refresh c tq m2)))).
+  { apply in_map. unfold refresh. cbn [m_open].
+    apply (in_map (fun x => (fst x, refresh_one c m2 tq (snd x))) _ (t, OpWait w)).
+    apply aget_some_in. exact Eo. }
+  pose proof (first_nonzero_all _ Ef _ Hin) as Hz.
+  unfold quiesce_code, refresh_one in Hz. simpl in Hz.
+  assert (Hu : urgent c m2 w = false).
+  { destruct (w_due w) eqn:Ed; [rewrite Ed in Hz; discriminate|].
+    destruct (urgent c m2 w); auto. simpl in Hz. discriminate. }
+  unfold urgent in Hu. apply orb_false_iff in Hu. destruct Hu as [Hu Hst].
+  apply orb_false_iff in Hu. destruct Hu as [Hu Htr]. apply orb_false_iff in Hu. destruct Hu as [Hp0 Hcn].
+  split; [apply N.eqb_neq; exact Hp0|]. split.
+  - destruct (existsb (is_cancel_of t) B) eqn:Ec; auto. specialize (Hcanc eq_refl).
+    simpl in Hcanc. congruence.
+  - unfold certainly_stale in Hst.
+    destruct (find_k (c_init c) (w_prev w) (m_floor m2) (S (c_total c) - m_floor m2)) as [k|] eqn:Efk;
+      [|discriminate].
+    apply find_k_some in Efk. destruct Efk as (Hr & Hi & _). exists k. split; [lia|exact Hi].
+Qed.
+End Sound.
+
+(* ------------------------------------------------------------------ *)
+(* the property theorems about the transition system                   *)
+(* ------------------------------------------------------------------ *)
+
+Definition reachable (i0 : N) (n : nat) (s : state) : Prop :=
+  exists acts, run (init_state i0 n) acts = Some s.
+
+Lemma reachable_inv i0 n s : reachable i0 n s -> Inv i0 s.
+Proof. intros [acts H]. eapply run_inv; [apply inv_init|exact H]. Qed.
+
+Lemma iteration_answers s s' t q :
+  tk s = TkHold -> track_step s = Some s' -> In (t, q) (reqs s) ->
+  q <> index s \/ terminated s = true ->
+  aget (resp s') t = Some (index s, terminated s) /\ ~ In (t, q) (reqs s').
+Proof.
+  intros Hk H Hin Hq. unfold track_step in H. rewrite Hk in H.
+  destruct (terminated s) eqn:Et; inversion H; subst s'; clear H; unf2; flds.
+  - split; [|intros []]. unfold answer_all. rewrite (aget_map_const (fun _ => (index s, true))).
+    destruct (find (fun x => Nat.eqb (fst x) t) (reqs s)) eqn:Ef; auto.
+    rewrite find_key_none in Ef. exfalso. eapply Ef; eauto.
+  - destruct Hq as [Hq|Hq]; [|discriminate].
+    assert (Hs : stale s (t, q) = true).
+    { unfold stale. simpl. destruct (N.eqb_spec q (index s)); auto. }
+    split.
+    + unfold answer_stale. rewrite (aget_map_const (fun _ => (index s, false))).
+      destruct (find (fun x => Nat.eqb (fst x) t) (filter (stale s) (reqs s))) eqn:Ef; auto.
+      rewrite find_key_none in Ef. exfalso. eapply Ef. apply filter_In. eauto.
+    + unfold keep_current. intros Hx. apply filter_In in Hx. destruct Hx as [_ Hx].
+      rewrite Hs in Hx. discriminate.
+Qed.
+
+(* C30, no lost wake-up *)
+Theorem tracker_no_missed i0 n s :
+  reachable i0 n s ->
+  (needs_run s = true -> tk_runnable (tk s) = true \/ signal_pending s) /\
+  (forall s' t q, tk s = TkHold -> step s ATrack = Some s' -> In (t, q) (reqs s) ->
+     q <> index s \/ terminated s = true ->
+     aget (resp s') t = Some (index s, terminated s) /\ ~ In (t, q) (reqs s')) /\
+  (quiescent s = true ->
+     forall t p c, nth_error (thr s) t = Some (p, c) -> blocked_ok s t p c).
+Proof.
+  intros R. pose proof (reachable_inv _ _ _ R) as I. split; [exact (inv_wake _ _ I)|]. split.
+  - intros s' t q Hk H. simpl in H. eapply iteration_answers; eauto.
+  - intros Q. apply (quiescent_shape _ _ I Q).
+Qed.
+
+(* whoever must signal or run can actually take a step *)
+Theorem tracker_progress i0 n s :
+  reachable i0 n s ->
+  (forall h, mu s = Some (OThread h) -> step s (AStep h) <> None) /\
+  (mu s = Some OTracker -> step s ATrack <> None) /\
+  (mu s = None -> tk_runnable (tk s) = true -> step s ATrack <> None).
+Proof.
+  intros R. pose proof (reachable_inv _ _ _ R) as I. split; [|split].
+  - intros h Hm. destruct (inv_mu_thr _ _ I _ Hm) as (p & c & Hn & Hh). simpl.
+    unfold step_thread. rewrite Hn. apply holding_enabled. exact Hh.
+  - intros Hm. apply (inv_mu_tk _ _ I) in Hm. simpl. unfold track_step.
+    destruct (tk s); try discriminate; destruct (terminated s); discriminate.
+  - intros Hm Hr. simpl. unfold track_step, mu_free. rewrite Hm.
+    destruct (tk s); try discriminate; destruct (terminated s); discriminate.
+Qed.
+
+(* C30, immediate answer *)
+Theorem tracker_immediate i0 n s t q acts s' :
+  reachable i0 n s -> In (t, q) (reqs s) -> q <> index s ->
+  run s acts = Some s' -> cnt s' = cnt s -> quiescent s' = true ->
+  forall cf, nth_error (thr s') t <> Some (WSel q, cf).
+Proof.
+  intros R Hin Hq Hrun Hc Q cf Hn. pose proof (reachable_inv _ _ _ R) as I.
+  pose proof (run_inv _ _ _ _ I Hrun) as I'.
+  destruct (quiescent_shape _ _ I' Q) as (_ & _ & Hb).
+  destruct (Hb _ _ _ Hn) as [Hx|(q' & Hx & _ & _ & _ & Hq' & _)]; [discriminate|].
+  injection Hx as Hqq. rewrite <- Hqq in Hq'. apply Hq.
+  rewrite Hq', (inv_idx _ _ I'), (inv_idx _ _ I), Hc. reflexivity.
+Qed.
+
+Theorem tracker_wait0_never_blocks i0 n s t p c :
+  reachable i0 n s -> nth_error (thr s) t = Some (p, c) ->
+  (p = W0Acq -> mu s = None -> step s (AStep t) <> None) /\
+  (p = W0Read -> exists s', step s (AStep t) = Some s' /\
+                 nth_error (thr s') t = Some (WRelRet (index s) (err_of_term (terminated s)), c)) /\
+  (forall i e, p = WRelRet i e -> exists s', step s (AStep t) = Some s' /\
+                 log s' = ERet t (RWait i e) 0 :: log s).
+Proof.
+  intros R Ht. simpl. unfold step_thread. rewrite Ht. split; [|split].
+  - intros -> Hm. simpl. unfold mu_free. rewrite Hm. discriminate.
+  - intros ->. simpl. eexists. split; [reflexivity|]. unfold set_thr; flds.
+    rewrite (nth_upd _ _ _ _ _ Ht), Nat.eqb_refl. reflexivity.
+  - intros i e ->. simpl. eexists. split; reflexivity.
+Qed.
+
+(* the index changes only in NotifyOfChange's update, by exactly one step of
+   [next_index]; in particular UnlockWithoutNotify never changes it *)
+Theorem tracker_index_steps s a s' :
+  step s a = Some s' ->
+  (index s' = index s /\ cnt s' = cnt s) \/
+  (index s' = next_index (index s) /\ cnt s' = S (cnt s) /\ terminated s = false /\
+   exists t c, a = AStep t /\ nth_error (thr s) t = Some (NUpd, c)).
+Proof.
+  intros H. destruct a; simpl in H.
+  - destruct (nth_error (thr s) t) as [[p cf]|]; [|discriminate]. destruct p; try discriminate.
+    inversion H; subst. auto.
+  - unfold step_thread in H. destruct (nth_error (thr s) t) as [[p cf]|] eqn:Ht; [|discriminate].
+    destruct p; cbn [thread_step] in H; unf2;
+      repeat match type of H with
+             | (if ?b then _ else _) = _ => destruct b eqn:?
+             | match ?x with _ => _ end = _ => destruct x eqn:?
+             end; try discriminate; inversion H; subst s'; flds; auto.
+    right. repeat split; auto. eauto.
+  - unfold sel_cancel in H. destruct (nth_error (thr s) t) as [[p cf]|]; [|discriminate].
+    destruct p; try discriminate. destruct cf; [|discriminate]. inversion H; subst. auto.
+  - destruct (nth_error (thr s) t) as [[p cf]|]; [|discriminate].
+    destruct (in_wait p); [|discriminate]. inversion H; subst. auto.
+  - unfold track_step in H. destruct (tk s); try discriminate;
+      try (destruct (mu_free s); [|discriminate]); try (destruct (terminated s));
+      inversion H; subst; auto.
+  - destruct (quiescent s); [|discriminate]. inversion H; subst. auto.
+Qed.
+
+Lemma check_to_mon i0 slack evs :
+  check_C30 i0 slack evs = true ->
+  exists mf, mon_from (mkCfg i0 (count_notifying evs) slack) m0 evs = MOk mf.
+Proof.
+  unfold check_C30, mon_from, mon_run.
+  destruct (fold_left _ evs (MOk m0)) as [m|k]; [eauto|discriminate].
+Qed.
+
+(* ------------------------------------------------------------------ *)
+(* C30 as a property of a history, and the soundness of the checker    *)
+(* ------------------------------------------------------------------ *)
+
+Definition nowrap (i0 : N) (evs : list event) : Prop :=
+  (i0 + N.of_nat (count_notifying evs) <= max_u64)%N.
+
+(* a successful WaitForChange(prev <> 0) returns an index <> prev *)
+Definition hist_no_stale (evs : list event) : Prop :=
+  forall A t p tm B i tm' D,
+    evs = A ++ ECall t (OWait p) tm :: B ++ ERet t (RWait i WOk) tm' :: D ->
+    untouched t B -> p <> 0%N -> i <> p.
+
+(* indices returned to successive calls never decrease *)
+Definition hist_monotone (i0 : N) (evs : list event) : Prop :=
+  nowrap i0 evs ->
+  forall A t1 i1 e1 tm1 B t2 p2 tm2 C i2 e2 tm3 D,
+    evs = A ++ ERet t1 (RWait i1 e1) tm1 :: B ++ ECall t2 (OWait p2) tm2 :: C
+            ++ ERet t2 (RWait i2 e2) tm3 :: D ->
+    untouched t2 C -> (i1 <= i2)%N.
+
+(* a notifying call (NotifyOfChange, TrackingLock.Unlock) advances the index *)
+Definition hist_unlock_advances (i0 : N) (evs : list event) : Prop :=
+  nowrap i0 evs ->
+  forall A ta ia ea tm1 B1 tu o tm2 B2 tm3 B3 tb pb tm4 B4 ib eb tm5 D,
+    evs = (A ++ ERet ta (RWait ia ea) tm1 :: B1 ++ ECall tu o tm2 :: B2)
+            ++ ERet tu RUnit tm3 :: B3 ++ ECall tb (OWait pb) tm4 :: B4
+            ++ ERet tb (RWait ib eb) tm5 :: D ->
+    is_notifying (ECall tu o tm2) = true ->
+    untouched tu B2 -> untouched tb B4 ->
+    no_term_call (A ++ ERet ta (RWait ia ea) tm1 :: B1 ++ ECall tu o tm2 :: B2) = true ->
+    (ia < ib)%N.
+
+(* a wait that is still blocked at quiescence missed nothing *)
+Definition hist_no_missed (i0 : N) (evs : list event) : Prop :=
+  forall A t p tm B tq D,
+    evs = A ++ ECall t (OWait p) tm :: B ++ EQuiesce tq :: D ->
+    untouched t B ->
+    p <> 0%N /\ existsb (is_cancel_of t) B = false /\
+    exists k, k <= count_notifying evs /\ idx_at i0 k = p.
+
+Definition C30_holds (i0 : N) (evs : list event) : Prop :=
+  hist_no_stale evs /\ hist_monotone i0 evs /\ hist_unlock_advances i0 evs /\ hist_no_missed i0 evs.
+
+Theorem check_C30_sound i0 slack evs : check_C30 i0 slack evs = true -> C30_holds i0 evs.
+Proof.
+  intros H. destruct (check_to_mon _ _ _ H) as [mf Hm]. clear H.
+  set (c := mkCfg i0 (count_notifying evs) slack) in *.
+  split; [|split; [|split]].
+  - intros A t p tm B i tm' D E HB Hp. rewrite E in Hm.
+    eapply (sound_no_stale c); eauto.
+  - intros Hw A t1 i1 e1 tm1 B t2 p2 tm2 C i2 e2 tm3 D E HC.
+    rewrite E in Hm. unfold nowrap in Hw. rewrite E in Hw.
+    exact (sound_monotone c A t1 i1 e1 tm1 B t2 p2 tm2 C i2 e2 tm3 D mf Hm HC Hw).
+  - intros Hw A ta ia ea tm1 B1 tu o tm2 B2 tm3 B3 tb pb tm4 B4 ib eb tm5 D E Hn H2 H4 Hnt.
+    rewrite E in Hm. unfold nowrap in Hw. rewrite E in Hw.
+    exact (sound_unlock_advances c A ta ia ea tm1 B1 tu o tm2 B2 tm3 B3 tb pb tm4 B4 ib eb tm5 D mf
+                                 Hm Hn H2 H4 Hnt Hw).
+  - intros A t p tm B tq D E HB. rewrite E in Hm.
+    exact (sound_quiesce c A t p tm B tq D mf Hm HB).
+Qed.
+
+(* every history of the transition system has the property *)
+Theorem model_C30_holds i0 n acts s :
+  run (init_state i0 n) acts = Some s -> C30_holds i0 (history s).
+Proof.
+  intros H. apply (check_C30_sound i0 None). eapply model_histories_accepted. exact H.
+Qed.
+
+(* ------------------------------------------------------------------ *)
+(* non-vacuity: a concrete schedule                                    *)
+(* ------------------------------------------------------------------ *)
+Definition example_schedule : list action :=
+  [ ACall 0 (OWait 1); AStep 0; AStep 0; AStep 0; AStep 0;      (* registered, in select *)
+    ATrack; ATrack; ATrack;                                    (* loop: nothing to answer, Wait *)
+    ACall 1 OUnlock; AStep 1; AStep 1; AStep 1; AStep 1; AStep 1; AStep 1;
+    ATrack; ATrack; ATrack;                                    (* woken: answers the request *)
+    AStep 0;                                                   (* receive, return (2, nil) *)
+    ACall 0 (OWait 2); AStep 0; AStep 0; AStep 0; AStep 0;
+    ATrack; ATrack; ATrack; AQuiesce ].
+
+Lemma example_run :
+  exists s, run (init_state 1 2) example_schedule = Some s /\
+    history s = [ ECall 0 (OWait 1) 0; ECall 1 OUnlock 0; ERet 1 RUnit 0; ERet 0 (RWait 2 WOk) 0;
+                  ECall 0 (OWait 2) 0; EQuiesce 0 ] /\
+    reqs s = [(0, 2%N)] /\ index s = 2%N /\ tk s = TkWaiting /\
+    check_C30 1 (Some 5%N) (history s) = true.
+Proof. eexists. vm_compute. repeat split; reflexivity. Qed.
+
+(* the checker rejects histories that violate the property *)
+Lemma example_rejects :
+  check_C30_code 1 None [ECall 0 (OWait 1) 0; ECall 1 ONotify 0; ERet 1 RUnit 0; ERet 0 (RWait 1 WOk) 0] = 2
+  /\ check_C30_code 1 None [ECall 1 OUnlock 0; ERet 1 RUnit 0; ECall 0 (OWait 0) 0; ERet 0 (RWait 1 WOk) 0] = 2
+  /\ check_C30_code 1 None [ECall 0 (OWait 1) 0; ECall 1 ONotify 0; ERet 1 RUnit 0; EQuiesce 0] = 2
+  /\ check_C30_code 1 (Some 10%N) [ECall 0 (OWait 1) 0; ECall 1 ONotify 5; ERet 1 RUnit 6; ERet 0 (RWait 2 WOk) 100] = 2
+  /\ check_C30_code 1 None [ECall 0 (OWait 1) 0; ERet 0 (RWait 1 WTerminated) 0] = 2.
+Proof. vm_compute. repeat split; reflexivity. Qed.
